@@ -256,8 +256,8 @@ func genTermScenario(rt *rapid.T, i int) *Scenario {
 	for h := 0; h < n; h++ {
 		sc.Hosts = append(sc.Hosts, "live")
 	}
-	kinds := []string{"reply", "reply5xx", "stall", "reset"}
-	kw := []int{45, 12, 28, 15}
+	kinds := []string{"reply", "reply5xx", "stall", "reset", "garbage"}
+	kw := []int{45, 12, 28, 12, 5}
 	for k := 0; k < 6; k++ {
 		st := Step{Kind: weighted(rt, l(fmt.Sprintf("step%d.kind", k)), kinds, kw)}
 		if st.Kind == "reply5xx" {
@@ -437,7 +437,7 @@ func judgeTerm(sc *Scenario, res *result) (misses []miss, classes []string) {
 				if a.Step.Kind == "stall" || a.Step.At.Class != "early" {
 					stalled = true // never answered, or the step is due near or after a timer
 				}
-				if a.Step.Kind == "reset" {
+				if a.Step.Kind == "reset" || a.Step.Kind == "garbage" {
 					failed = true
 				}
 			}
